@@ -225,7 +225,12 @@ func (s callSite) viaText() string {
 // callsIn lists the call sites in f (and nested closures) whose callee label
 // matches the glob, looking through same-package helper functions (depth ≤ 2).
 func callsIn(f *ssa.Function, glob string) []callSite {
-	return callsDeep(f, glob, nil, map[*ssa.Function]bool{f: true}, 0)
+	return callsDeep(f, func(ci ssa.CallInstruction, l string) bool { return ens.Glob(glob, l) }, nil, map[*ssa.Function]bool{f: true}, 0)
+}
+
+// callsWhere is callsIn with an arbitrary predicate on the call instruction.
+func callsWhere(f *ssa.Function, pred func(ci ssa.CallInstruction, label string) bool) []callSite {
+	return callsDeep(f, pred, nil, map[*ssa.Function]bool{f: true}, 0)
 }
 
 // noDescend: helpers that are anchors of rules of their own; a search started
@@ -235,7 +240,7 @@ var noDescend = map[string]string{
 	"ssv/protocol/v2/ssv/runner.BaseRunner.resolveDuplicateSignature": "C05-R3 new-sig-verified is the rule for its AddSignature site",
 }
 
-func callsDeep(f *ssa.Function, glob string, via []viaStep, seen map[*ssa.Function]bool, depth int) []callSite {
+func callsDeep(f *ssa.Function, match func(ci ssa.CallInstruction, label string) bool, via []viaStep, seen map[*ssa.Function]bool, depth int) []callSite {
 	var out []callSite
 	for _, g := range funcsWithAnon(f) {
 		for _, b := range g.Blocks {
@@ -245,7 +250,7 @@ func callsDeep(f *ssa.Function, glob string, via []viaStep, seen map[*ssa.Functi
 					continue
 				}
 				l := callLabel(ci.Common())
-				if ens.Glob(glob, l) {
+				if match(ci, l) {
 					out = append(out, callSite{Fn: g, Instr: ci, Label: l, Via: via})
 					continue
 				}
@@ -270,7 +275,7 @@ func callsDeep(f *ssa.Function, glob string, via []viaStep, seen map[*ssa.Functi
 				}
 				seen[h] = true
 				nv := append(append([]viaStep{}, via...), viaStep{ci, g})
-				out = append(out, callsDeep(h, glob, nv, seen, depth+1)...)
+				out = append(out, callsDeep(h, match, nv, seen, depth+1)...)
 				delete(seen, h)
 			}
 		}
